@@ -100,7 +100,59 @@ func c29CheckEnum(c *kit.Case, in c29EnumInput) {
 	if v < 0 || v > 5000 {
 		return
 	}
-	g := c29EnumGrid(v)
+	c29CheckGrid(c, c29EnumGrid(v), v, i)
+}
+
+// ---- one GridMapper value that lives across validator-set changes (epochs): every answer
+// depends on the sets it holds at the time of the call only
+type c29ReuseInput struct {
+	Vs []int `json:"vs"` // successive set sizes
+	Is []int `json:"is"` // index queried at each stage (taken modulo V, plus the two out-of-range ends)
+}
+
+func c29GenReuse(rt *rapid.T) c29ReuseInput {
+	sizes := []int{1, 2, 3, 4, 5, 6, 8, 9, 10, 15, 16, 17, 24, 25, 26, 35, 36, 37, 63, 64, 65, 99, 100, 101, 1023, 1024, 1025}
+	n := rapid.IntRange(2, 5).Draw(rt, "stages")
+	var in c29ReuseInput
+	for k := 0; k < n; k++ {
+		in.Vs = append(in.Vs, rapid.SampledFrom(sizes).Draw(rt, "v"))
+		in.Is = append(in.Is, rapid.IntRange(-1, 1025).Draw(rt, "i"))
+	}
+	return in
+}
+
+func c29CheckReuse(c *kit.Case, in c29ReuseInput) {
+	if len(in.Vs) == 0 || len(in.Vs) > 8 || len(in.Is) != len(in.Vs) {
+		return
+	}
+	g := &GridMapper{}
+	widths := map[int]bool{}
+	for k, v := range in.Vs {
+		if v < 1 || v > 2000 {
+			return
+		}
+		var prev, cur, next []types.Validator
+		for i := 0; i < v; i++ {
+			prev = append(prev, c29Validator(3*k, i, 1_000_000*(3*k+1)+i))
+			cur = append(cur, c29Validator(3*k+1, i, 1_000_000*(3*k+2)+i))
+			next = append(next, c29Validator(3*k+2, i, 1_000_000*(3*k+3)+i))
+		}
+		g.Previous, g.Current, g.Next = prev, cur, next
+		widths[c29RefWidth(v)] = true
+		i := in.Is[k]
+		if i > v {
+			i = i % v
+		}
+		c29CheckGrid(c, g, v, i)
+		c29CheckGrid(c, g, v, (i+v/2)%v)
+	}
+	if len(widths) >= 2 {
+		c.Class("reuse_grid_width_changed")
+		c.NonTrivial()
+	}
+}
+
+func c29CheckGrid(c *kit.Case, g *GridMapper, v, i int) {
 	if v >= 1 {
 		if got, want := ComputeWidth(v), c29RefWidth(v); got != want {
 			c.Failf("ComputeWidth(%d) = %d, floor(sqrt) = %d", v, got, want)
@@ -566,6 +618,7 @@ func TestVerif_C29(t *testing.T) {
 	}
 
 	// 2. key-level API
+	kit.Run(s, "mapper_reused_across_set_changes", kit.N{Quick: 3000, Thorough: 100000}, c29GenReuse, c29CheckReuse)
 	kit.Run(s, "is_neighbor_by_key", kit.N{Quick: 40000, Thorough: 1500000}, c29GenSets, c29CheckSets)
 
 	// 3. preferred initiator
